@@ -7,8 +7,9 @@
   `recv` / `recv_stderr` (any sizes) and `set_combine_stderr` calls of the application.
 -/
 import PV.Model.Mux
+import PV.Base.WireLemmas
 namespace PV.Props.C21
-open PV PV.Mux
+open PV PV.Mux PV.Wire
 
 /-! ## dispatch: a map of independent per-channel machines -/
 
@@ -489,6 +490,49 @@ theorem exit_status_is_the_one_sent (c : Nat) (h : List Act) (ch : Chan) (hall :
     simp only [runChan, List.foldl_cons] at this ⊢
     rw [this, h1]
     cases a <;> simp [lastExit] <;> (repeat' split) <;> simp_all
+
+/-- **Exit status on the wire.**  For every status in the uint32 range, what `_handle_request` reads out of the request
+`send_exit_status` wrote is that status (the field is four fixed bytes: no value, 0xFF000000 … 0xFFFFFFFF included,
+is encoded differently). -/
+theorem exit_status_wire_roundtrip (v : Nat) (hv : v < 4294967296) :
+    handleRequestExit (exitStatusBody v) = some v := by
+  have hbody : exitStatusBody v = [] ++ be32 11 ++ (exitStatusName ++ [0] ++ be32 v) := by
+    simp [exitStatusBody, encodeAll, encode, encStr, exitStatusName, List.append_assoc]
+  unfold handleRequestExit Rd.getString Rd.getInt
+  rw [hbody]
+  have h1 := getBytes_exact [] (be32 11) (exitStatusName ++ [0] ++ be32 v)
+  simp only [List.length_nil, be32, beBytes_length] at h1
+  simp only [be32, h1]
+  have hv11 : beVal (beBytes 4 11) = 11 := by decide
+  simp only [hv11]
+  have h2 := getBytes_exact (beBytes 4 11) exitStatusName ([0] ++ beBytes 4 v)
+  have e2 : ([] : Bytes) ++ beBytes 4 11 ++ (exitStatusName ++ [0] ++ beBytes 4 v)
+      = beBytes 4 11 ++ exitStatusName ++ ([0] ++ beBytes 4 v) := by simp [List.append_assoc]
+  have l1 : (beBytes 4 11).length = 4 := by simp
+  have l2 : exitStatusName.length = 11 := by decide
+  rw [l1, l2] at h2
+  rw [e2]
+  simp only [Nat.zero_add, h2]
+  have h3 := getBytes_exact (beBytes 4 11 ++ exitStatusName) [0] (beBytes 4 v)
+  have l3 : (beBytes 4 11 ++ exitStatusName).length = 15 := by simp [l2]
+  rw [l3] at h3
+  have e3 : beBytes 4 11 ++ exitStatusName ++ ([0] ++ beBytes 4 v) = beBytes 4 11 ++ exitStatusName ++ [0] ++ beBytes 4 v := by
+    simp [List.append_assoc]
+  rw [e3]
+  simp only [List.length_singleton] at h3
+  simp only [h3, if_true]
+  have h4 := getBytes_exact (beBytes 4 11 ++ exitStatusName ++ [0]) (beBytes 4 v) []
+  have l4 : (beBytes 4 11 ++ exitStatusName ++ [0]).length = 16 := by simp [l2]
+  rw [l4] at h4
+  simp only [beBytes_length, List.append_nil] at h4
+  rw [h4]
+  simp only []
+  exact congrArg some (beVal_beBytes_of_lt 4 v (by simpa using hv))
+
+-- the boundary values of the uint32 range, as bytes on the wire
+example : exitStatusRequest 7 4294967295 =
+    [98, 0, 0, 0, 7, 0, 0, 0, 11, 101, 120, 105, 116, 45, 115, 116, 97, 116, 117, 115, 0, 255, 255, 255, 255] := by decide
+example : (exitStatusBody 4278190081).drop 16 = [255, 0, 0, 1] := by decide
 
 /-! ## the whole transport: any number of channels -/
 
